@@ -634,7 +634,7 @@ def r2_one_name_three_roles(ctx, rule_filter=None):
 
 
 def r3_early_exits(ctx):
-    _with_fallback(ctx, ("early-exits",), _skeleton_r3_early_exits)
+    _with_fallback(ctx, ("early-exits", "call-shapes"), _skeleton_r3_early_exits)
 
 
 def r4(ctx):
